@@ -497,6 +497,9 @@ def _run_rest(check, an: Analysis):
     c03._check_signal_lifecycles(
         check, an, _scope.wrapper_callee(an), rule='L9',
         only=lambda fn, cls: fn.cls is None and fn.module.name == 'usim._primitives.notification')
+    # the kernel rules every suspending operation rests on (shared; see _scope)
+    from . import _scope as _kernel
+    _kernel.check_kernel_core(check, an)
     check.stats.update(an.stats())
 
 
